@@ -219,7 +219,9 @@ pub fn run(line: &str) -> Option<(String, Vec<String>)> {
                 }
                 if let Some(o) = &obs {
                     check_rows(o, bpp as usize, len, &mut oracle);
-                    if !empty && (o.pitch != pitch || o.w != w || o.h != h) {
+                    // the row pitch matters to the rows only from the second row on: a one-row view may normalise it
+                    // (as empty views already do); C20 speaks of the rows exposed, not of the accessor
+                    if !empty && ((h >= 2 && o.pitch != pitch) || o.w != w || o.h != h) {
                         oracle.push("new_with: fields differ from the arguments".into());
                     }
                 }
